@@ -91,9 +91,14 @@ def check_k0(case, ctx):
             if case.get('force_ortho'):
                 pt.force_orthotropic_laminate = True
             pt.y1, pt.y2 = a_, b_
+            if Nc is not None:
+                pt.Nxx_cte, pt.Nyy_cte, pt.Nxy_cte = Nc       # the strips carry the pre-load too (first strip starts at y1 = 0.0)
             with package('k0.tiling'):
                 tot += dense(pt.calc_k0(size=size, row0=row0, col0=row0, silent=True))
-        pkg.compare_matrix(ctx, 'tiling', tot, K, TOL, num=pd.num, row0=row0, nd=own, bucket=name + '.tiling')
+        if Nc is not None:
+            ctx.close('tiling(pre-loaded strips)', tot, K2, 1e-9, bucket=name + '.tiling', scale=sc)
+        else:
+            pkg.compare_matrix(ctx, 'tiling', tot, K, TOL, num=pd.num, row0=row0, nd=own, bucket=name + '.tiling')
 
     # rigid-body modes of an unrestrained flat panel carry no strain energy
     if case['model'] in ('plate', 'plate_w') and all(v == 1. for v in fl) and case['m'] >= 4 and case['n'] >= 4 and not y:
